@@ -44,6 +44,12 @@ def analyse(prop, tier, root=None):
             raise
         ctx.incomplete = e
         ctx.notes.append("analysis stopped early (%s); the findings reported are those established before" % e)
+    unknowns = getattr(ctx, "unknowns", [])
+    if unknowns and ctx.incomplete is None:
+        ctx.incomplete = AnalysisError("%s: %d construct(s) not understood (idiom the rule was not written for): %s" % (
+            prop, len(unknowns), " || ".join(unknowns)[:900]))
+        if ctx.findings:
+            ctx.notes.append(str(ctx.incomplete))
     return ctx, mod
 
 
@@ -109,7 +115,7 @@ def main(argv=None):
             print("  %s" % f.detail)
         if selftest_result is not None:
             print("selftest: %(mutants)d mutant(s): %(caught)d caught, %(stale)d stale, "
-                  "%(missed)d missed; silent-on-normalised-copy=%(silent_ok)s; silent-on-==-operand-swap=%(silent_on_eq_operand_swap)s" % selftest_result)
+                  "%(missed)d missed; silent-on-normalised-copy=%(silent_ok)s; silent-on-rewrites=%(silent_on_rewrites)s" % selftest_result)
         if not args.no_evidence:
             report.write_evidence(
                 ctx, len(new), mod.EXPLANATION, mod.ASSUMPTIONS,
